@@ -63,14 +63,15 @@ var PkgIDs = map[string]int{
 }
 
 type G struct {
-	name    string
-	gate    chan struct{}
-	site    string
-	frozen  time.Time // not eligible before this instant of the bubble clock (a stalled goroutine)
-	waiting bool      // waiting for a lock to be released
-	spawned int
-	prio    int
-	hasPrio bool
+	name         string
+	gate         chan struct{}
+	site         string
+	frozen       time.Time // not eligible before this instant of the bubble clock (a stalled goroutine)
+	pendingTimer bool      // a time.AfterFunc that has not fired yet: not a goroutine of the program
+	waiting      bool      // waiting for a lock to be released
+	spawned      int
+	prio         int
+	hasPrio      bool
 }
 
 // Strategy kinds (generation mode only; a replayed tape carries the picks).
@@ -93,10 +94,11 @@ type Sim struct {
 	live   map[string]*G
 	parked map[string]*G
 
-	Steps    int
-	Budget   int
-	Switches int
-	last     string
+	Steps         int
+	Budget        int // steps allowed WITHOUT progress (see Progress)
+	sinceProgress int
+	Switches      int
+	last          string
 
 	h         interface{ Sum64() uint64 }
 	hw        io.Writer
@@ -115,11 +117,11 @@ type Sim struct {
 	// RootDoneStep is the step count at which the root function returned.
 	RootDoneStep int
 
-	Strategy   int
-	pctChanges []int
-	starveKey  string
+	Strategy    int
+	pctChanges  []int
+	starveKey   string
 	starveOneIn int
-	stickyNum  int
+	stickyNum   int
 
 	// Freeze: the "stalled goroutine" fault.  When on, the scheduler now and then
 	// makes a parked goroutine ineligible for a while of simulated time (a disk
@@ -138,11 +140,13 @@ type Sim struct {
 
 	pendingW map[uintptr]int // writers waiting per lock (sync.RWMutex writer preference)
 
+	WasAbandoned bool
+
 	// counters
 	LockContention     int
 	ReaderBehindWriter int
-	IdleJumps      int
-	Start          time.Time
+	IdleJumps          int
+	Start              time.Time
 
 	// Goroutine names ever seen, in order of creation (for evidence).
 	Names []string
@@ -155,9 +159,14 @@ var cur atomic.Pointer[Sim]
 // time (a goroutine that never reaches a yield), never because a run is long.
 var GlobalSteps atomic.Int64
 
+// Abandon is set from outside the bubble (real time) when the current run has
+// been going for too long to be worth finishing (a goroutine explosion makes
+// every step slow, say).  The run then ends with the verdict Abandoned and is
+// counted as skipped: an abandoned run is never a verdict about the property.
+var Abandon atomic.Bool
+
 // Cur returns the simulation the calling code runs under, or nil.
 func Cur() *Sim { return cur.Load() }
-
 
 func New(t *Tape) *Sim {
 	h := fnv.New64a()
@@ -209,6 +218,20 @@ func (s *Sim) me() *G {
 	g := s.byGoid[id]
 	s.mu.Unlock()
 	return g
+}
+
+// Progress tells the scheduler that the run got somewhere (the environment
+// handed out or accepted data, a consumer received a message, an operation
+// returned).  The step budget counts steps since the last such event, so that
+// periodic background activity during a long simulated stall (a ticker firing
+// through a two-minute write) is not mistaken for a livelock, while a run that
+// goes round in circles without achieving anything still runs out of budget.
+func Progress() {
+	if s := cur.Load(); s != nil {
+		s.mu.Lock()
+		s.sinceProgress = 0
+		s.mu.Unlock()
+	}
 }
 
 // Logf adds a line to the event log (hash and optional trace).  It never
@@ -528,15 +551,20 @@ func Unlocked() {
 		g.waiting = false
 	}
 	s.mu.Unlock()
+	select {
+	case s.wake <- struct{}{}:
+	default:
+	}
 }
 
 // Outcome of Run.
 const (
-	Done     = "done"     // quiescent (or everything finished) after the root returned
-	Deadlock = "deadlock" // quiescent, the root function never returned
-	Budget   = "budget"   // step budget exhausted
-	Panic    = "panic"    // a gated goroutine panicked
-	Exit_    = "exit"     // rt.Exit was called
+	Done      = "done"      // quiescent (or everything finished) after the root returned
+	Deadlock  = "deadlock"  // quiescent, the root function never returned
+	Budget    = "budget"    // step budget exhausted
+	Panic     = "panic"     // a gated goroutine panicked
+	Exit_     = "exit"      // rt.Exit was called
+	Abandoned = "abandoned" // given up after too much real time (inconclusive, never reported)
 )
 
 const idleHorizon = 12 * time.Hour
@@ -548,6 +576,9 @@ func (s *Sim) Run(root func()) string {
 	defer cur.Store(nil)
 	defer s.kill()
 	s.Start = time.Now()
+	if s.Budget < 150000 {
+		s.Budget = 150000 // a livelock burns this in well under a second; anything legitimate stays far below it between two progress events
+	}
 	s.wake = make(chan struct{}, 1)
 	g := &G{name: "main", gate: make(chan struct{})}
 	s.live[g.name] = g
@@ -602,19 +633,22 @@ func (s *Sim) Run(root func()) string {
 			continue
 		}
 		if len(names) == 0 {
-			nlive := len(s.live)
+			nlive := 0
+			for _, g := range s.live {
+				if !g.pendingTimer {
+					nlive++
+				}
+			}
 			nparked := len(s.parked)
 			s.mu.Unlock()
 			if nlive == 0 {
 				return Done
 			}
-			if nparked > 0 {
-				// everything parked is waiting on a lock nobody will release
-				s.mu.Lock()
-				s.logLocked("lock deadlock: every remaining goroutine waits for a lock")
-				s.mu.Unlock()
-				return Deadlock
-			}
+			// (Goroutines that wait for a lock are treated like blocked ones: whoever
+			// holds the lock may be asleep or blocked outside the scheduler's view and
+			// release it later; only if nothing at all happens until the idle horizon
+			// is this a deadlock.)
+			_ = nparked
 			// Idle: let the bubble clock advance to the next timer of a sleeper,
 			// or declare quiescence when nothing happens for idleHorizon.
 			idle.Reset(idleHorizon)
@@ -641,11 +675,16 @@ func (s *Sim) Run(root func()) string {
 				}
 			}
 		}
-		if s.Steps >= s.Budget {
+		if s.sinceProgress >= s.Budget {
 			s.mu.Unlock()
 			return Budget
 		}
-		if s.Freeze && len(names) > 1 {
+		if Abandon.Load() {
+			s.WasAbandoned = true
+			s.mu.Unlock()
+			return Abandoned
+		}
+		if s.Freeze && len(names) > 1 && s.FreezeCount < maxFreezes {
 			// stall one of the eligible goroutines where it stands
 			if k := s.T.DW(40, 1); k == 1 {
 				v := names[s.T.D(len(names))]
@@ -662,6 +701,7 @@ func (s *Sim) Run(root func()) string {
 		pg := s.parked[pick]
 		delete(s.parked, pick)
 		s.Steps++
+		s.sinceProgress++
 		GlobalSteps.Add(1)
 		if pick != s.last {
 			s.Switches++
@@ -672,6 +712,12 @@ func (s *Sim) Run(root func()) string {
 		pg.gate <- struct{}{}
 	}
 }
+
+// maxFreezes bounds the stalled-goroutine faults of one run: every long stall
+// lets periodic timers of the code under test burn scheduling steps without
+// any operation completing, and the step budget must stay a statement about
+// the code, not about how often the simulator stalled it.
+const maxFreezes = 6
 
 // strategyPick implements the generation-mode scheduling strategies.  names[0]
 // is the goroutine that ran last if it is still eligible.
@@ -765,12 +811,27 @@ func (s *Sim) kill() {
 
 func (s *Sim) RootDone() bool { return s.rootDone.Load() }
 
-// Live returns the names of gated goroutines that have not finished.
+// markPendingTimer flags the calling gated goroutine as a timer that waits to fire.
+func markPendingTimer(v bool) {
+	if s := cur.Load(); s != nil {
+		if g := s.me(); g != nil {
+			s.mu.Lock()
+			g.pendingTimer = v
+			s.mu.Unlock()
+		}
+	}
+}
+
+// Live returns the names of gated goroutines that have not finished (timers
+// that merely wait to fire are not goroutines of the program and are left out).
 func (s *Sim) Live() []string {
 	s.mu.Lock()
 	defer s.mu.Unlock()
 	var r []string
-	for n := range s.live {
+	for n, g := range s.live {
+		if g.pendingTimer {
+			continue
+		}
 		r = append(r, n)
 	}
 	sort.Strings(r)
@@ -824,5 +885,7 @@ func (st *Stream) Write(p []byte) (int, error) {
 func (st *Stream) WriteString(x string) (int, error) { return st.Write([]byte(x)) }
 func (st *Stream) Close() error                      { return nil }
 func (st *Stream) Fd() uintptr                       { return uintptr(st.fd) }
-func (st *Stream) Name() string                      { return [...]string{"/dev/stdin", "/dev/stdout", "/dev/stderr"}[st.fd] }
-func (st *Stream) Sync() error                       { return nil }
+func (st *Stream) Name() string {
+	return [...]string{"/dev/stdin", "/dev/stdout", "/dev/stderr"}[st.fd]
+}
+func (st *Stream) Sync() error { return nil }
